@@ -517,7 +517,7 @@ DumpIdx(b) ==
 \* dmg: per blob id one of "keep" | "lose" (removed, truncated, header only, written flag
 \* clear: anything that fails validation) | "stale" (a complete index of a shorter blob)
 \* The index file is a cache: whatever dmg is, Open regenerates what is not valid.
-Restart(graceful, lazy, dmg) ==
+RestartL(graceful, lazy, dmg, label) ==
   LET \* Storage::close dumps the active blob
       bl0 == IF graceful /\ active # None THEN DumpAllIn(blob, {active}) ELSE blob
       \* files as found by Open
@@ -542,13 +542,15 @@ Restart(graceful, lazy, dmg) ==
                           ifcnt |-> Len(bl1[b].recs)]]
       cl  == SetToSortSeq(ids \ {a2}, <)
   IN
-  /\ act' = Act("restart", 0, 0, 0, (IF graceful THEN 1 ELSE 0) + (IF lazy THEN 2 ELSE 0), "")
+  /\ act' = Act("restart", 0, 0, 0, (IF graceful THEN 1 ELSE 0) + (IF lazy THEN 2 ELSE 0), label)
   /\ ret' = Ok
   /\ blob' = bl2 /\ active' = a2 /\ slots' = cl
   /\ nextId' = (IF QuarIdsReserved THEN Max(usedIds) ELSE top) + 1
   /\ worker' = "running"
   /\ agedIds' = {}
   /\ UNCHANGED <<usedIds, quar, opn>>
+
+Restart(graceful, lazy, dmg) == RestartL(graceful, lazy, dmg, "")
 
 \* every assignment of damage classes, for model checking
 Damages == [Ids -> {"keep", "lose", "stale"}]
